@@ -258,6 +258,9 @@ class Aspire:
                 if "flow" in h5_file:
                     if overwrite:
                         del h5_file["flow"]
+                        if "checkpoint" in h5_file:
+                            # Weighted under the flow that is replaced
+                            del h5_file["checkpoint"]
                         self.save_flow(h5_file)
                 else:
                     self.save_flow(h5_file)
